@@ -10,6 +10,7 @@ fn main() {
         Some("minerctl") => minerctl::main(&args[2..]),
         Some("market") => market::main(&args[2..]),
         Some("initd") => initd::main(&args[2..]),
+        Some("evmcalls") => calls::main(&args[2..]),
         Some("sectors") => sectors::main(&args[2..]),
         Some("evm17") => evm::main(&args[2..]),
         Some("evm18") => evm18::main(&args[2..]),
